@@ -80,7 +80,11 @@ def normwise(scale, lead=2):
     if scale.ndim <= lead:
         return scale
     ax = tuple(range(lead, scale.ndim))
-    return np.broadcast_to(scale.max(axis=ax, keepdims=True), scale.shape)
+    m = scale.max(axis=ax, keepdims=True)
+    # the recurrence of order d passes through all lower orders: when the exact coefficient of an order vanishes (nilpotent
+    # higher part, zero layers) its terms are rounding noise of the lower orders, so the scale runs over k <= d
+    m = np.maximum.accumulate(m, axis=0)
+    return np.broadcast_to(m, scale.shape)
 
 
 def running_scale(ref):
